@@ -7,6 +7,7 @@ import (
 	"net/http"
 
 	pb "massnet.org/mass/api/proto"
+	"massnet.org/mass/mining"
 	"massnet.org/mass/poc/engine"
 	engine_v2 "massnet.org/mass/poc/engine.v2"
 )
@@ -28,4 +29,14 @@ func VerifWorkSpace(wsi engine.WorkSpaceInfo) (*pb.WorkSpace, error) {
 
 func VerifWorkSpaceV2(wsi engine_v2.WorkSpaceInfo) (*pb.WorkSpaceV2, error) {
 	return workSpaceInfo2ProtoWorkSpaceV2(wsi)
+}
+
+// VerifCheckMinerDiskSize / VerifCheckMinerPathCapacity are the admission checks ConfigureCapacity and
+// ConfigureCapacityByDirs run before they call the space keeper.
+func VerifCheckMinerDiskSize(sk mining.SpaceKeeperV1, requiredMiBytes uint64) error {
+	return checkMinerDiskSize(sk, requiredMiBytes)
+}
+
+func VerifCheckMinerPathCapacity(sk mining.SpaceKeeperV1, path string, requiredMiBytes uint64) error {
+	return checkMinerPathCapacity(sk, path, requiredMiBytes)
 }
